@@ -851,6 +851,14 @@ def keyed_writes(res, base_pred=lambda b: True):
             elif a.op == "dict":
                 for k, v in a.args:
                     out.append((k, v, e.live, e))
+            elif a.op == "comp" and len(a.args[2]) == 1 and \
+                    a.args[1] is T("elem", a.args[2][0][0], a.args[2][0][1]) \
+                    and is_call_to(a.args[2][0][0], ".items"):
+                # update(item for item in d.items() if ...): the items
+                # themselves are the (key, value) pairs
+                el = a.args[1]
+                out.append((tm.sub(el, const(0)), tm.sub(el, const(1)),
+                            tm.mk_and(e.live, *a.args[3]), e))
             else:
                 out.append((None, a, e.live, e))
         elif e.kind == "call" and e.data.get("name") == ".setdefault" and \
